@@ -146,7 +146,11 @@ def check_open(ctx, I):
     pull = model.own_method("SequOOL", "pull")
     q = "SequOOL.pull"
     inner = [s for s in I.body if isinstance(s, ast.If)]
-    ok = len(inner) == 1 and norm_src(inner[0].test) == "self.curr_depth == 0" and len(I.body) == 1
+    # (initialisations of locals with literals in front of the case distinction - `num = 0` hoisted out of the deeper case - do nothing
+    # the root case could observe)
+    others = [s for s in I.body if s not in inner and not (isinstance(s, ast.Assign) and len(s.targets) == 1 and isinstance(s.targets[0], ast.Name) and
+                                                           isinstance(s.value, ast.Constant) and inner and I.body.index(s) < I.body.index(inner[0]))]
+    ok = len(inner) == 1 and norm_src(inner[0].test) == "self.curr_depth == 0" and not others
     ctx.ob("R12-OPEN", ok, c.file, q, "depth 0 opens the root, depth h >= 1 opens the best unopened cell", norm_src(inner[0].test) if inner else "?", I.lineno,
            nontrivial=False)
     if not ok:
@@ -244,6 +248,13 @@ def check_handout_paths(ctx, winner):
         C = parent + ".get_children()"
         last = query("self.loc == len(%s) - 1" % C)
         inrange = query("self.loc < len(%s)" % C)
+        if last is None:
+            # the same fact stated as an order test: within the range, `loc < len - 1` is `not (loc == len - 1)`
+            before_last = query("self.loc < len(%s) - 1" % C)
+            if before_last is True:
+                last = False
+            elif before_last is False and inrange is True:
+                last = True
         wch = [w for w in p.writes if w[0] == "self.chosen[]"]
         other = [t for t in wtargets if t not in ("self.curr_node", "self.chosen[]", "self.loc", "self.budget", "self.curr_depth")]
         opens = [e for e in calls if e[1].endswith(".open")]
